@@ -877,6 +877,11 @@ func (w *world) concretise(r req) concrete {
 		c.Header = "0" + strings.ToLower(litefs.FormatNodeID(w.target.Store.ID()))
 	case "foreign":
 		c.Header = litefs.FormatNodeID(w.p.Foreign)
+		// "not the node's own ID" is also the ID of a replica that is connected right now: a stream request
+		// that is refused must not cost that replica its subscription (every second such request)
+		if r.Ep == "stream" && r.M == "POST" && r.Body != "valid" && w.peer != nil && w.variant.Add(1)%2 == 0 {
+			c.Header = litefs.FormatNodeID(w.peer.Store.ID())
+		}
 	}
 	c.Body = w.body(r)
 	c.Long = (r.Ep == "stream" && r.M == "POST") || (r.Ep == "events" && r.M == "GET")
